@@ -526,6 +526,7 @@ mod num_from {
 
 pub fn base_records() -> Vec<(u32, Val)> {
     let mut r: Vec<(u32, Val)> = vec![
+        (t(T::RPMTAG_HEADERI18NTABLE), Val::strs(&["C"])),
         (t(T::RPMTAG_NAME), Val::str("nm")),
         (t(T::RPMTAG_VERSION), Val::str("1.2")),
         (t(T::RPMTAG_RELEASE), Val::str("3.el")),
@@ -586,6 +587,8 @@ pub enum Dev {
     Multi(Vec<Dev>),
     /// permute the index entries of the main header (1 reversed, 2 first entry moved last); the store is untouched
     Reorder(u8),
+    /// the tag's entry sits behind the immutable region (appended like rpm appends install-time tags)
+    Behind(u32),
 }
 
 fn variants(v: &Val) -> Vec<Val> {
@@ -667,7 +670,14 @@ fn build(base: &[(u32, Val)], devs: &[&Dev]) -> Vec<u8> {
             _ => {}
         }
     }
-    let mut h = RawHeader::layout_region(63, &recs);
+    let behind: Vec<u32> = devs.iter().filter_map(|d| if let Dev::Behind(t) = d { Some(*t) } else { None }).collect();
+    let mut h = if behind.is_empty() {
+        RawHeader::layout_region(63, &recs)
+    } else {
+        let inside: Vec<(u32, Val)> = recs.iter().filter(|(t, _)| !behind.contains(t)).cloned().collect();
+        let outside: Vec<(u32, Val)> = recs.iter().filter(|(t, _)| behind.contains(t)).cloned().collect();
+        RawHeader::layout_region_dribble(63, &inside, &outside)
+    };
     for d in devs.iter() {
         match d {
             Dev::Retype(t, ty) => {
@@ -714,6 +724,12 @@ fn groups() -> Vec<Group> {
             Dev::Set(t(T::RPMTAG_LONGSIZE), Val::Int64(vec![])),
             Dev::Set(t(T::RPMTAG_LONGSIZE), Val::Int32(vec![5])),
             Dev::Set(t(T::RPMTAG_SOURCEPACKAGE), Val::Int32(vec![1])),
+            // locale tables: the accessors return the first stored string whatever the table says
+            Dev::Drop(t(T::RPMTAG_HEADERI18NTABLE)),
+            Dev::Set(t(T::RPMTAG_HEADERI18NTABLE), Val::strs(&["de", "C", "fr"])),
+            Dev::Set(t(T::RPMTAG_HEADERI18NTABLE), Val::strs(&["C", "de"])),
+            Dev::Multi(vec![Dev::Set(t(T::RPMTAG_HEADERI18NTABLE), Val::strs(&["de", "C"])), Dev::Set(t(T::RPMTAG_SUMMARY), Val::i18n(&["zusammenfassung", "summary"])), Dev::Set(t(T::RPMTAG_GROUP), Val::i18n(&["gruppe", "group"]))]),
+            Dev::Multi(vec![Dev::Set(t(T::RPMTAG_HEADERI18NTABLE), Val::strs(&["fr", "de", "C"])), Dev::Set(t(T::RPMTAG_DESCRIPTION), Val::i18n(&["un", "zwei", "three"]))]),
             Dev::Set(t(T::RPMTAG_PAYLOADCOMPRESSOR), Val::str("zstd")),
             Dev::Set(t(T::RPMTAG_PAYLOADCOMPRESSOR), Val::str("xz")),
             Dev::Set(t(T::RPMTAG_PAYLOADCOMPRESSOR), Val::str("bzip2")),
@@ -800,6 +816,9 @@ pub fn sweeps(ctx: &Ctx) -> Vec<Sweep> {
         m.extend(g.extra.iter().cloned());
         m.push(Dev::Reorder(1));
         m.push(Dev::Reorder(2));
+        for tag in g.tags.iter().take(4) {
+            m.push(Dev::Behind(*tag));
+        }
         let nm = m.len() as u64;
         // index space: 1 (no deviation) + nm (one) + nm*nm (ordered pairs i<j only are run) for k = 2
         let n = 1 + nm + if k >= 2 { nm * nm } else { 0 };
@@ -807,7 +826,7 @@ pub fn sweeps(ctx: &Ctx) -> Vec<Sweep> {
         let accessors = g.accessors.clone();
         let name = format!("dev-{}", g.name);
         let rule = format!(
-            "complete well-formed base header with pairwise distinct byte-asymmetric values; all 0-, 1-{} deviation variants over the {} tags of group '{}' from a menu of {} deviations (drop tag; retype to each other type; count 0 / n−1 / n+1; empty, short, multi-byte, invalid-UTF-8 values; 1–3 locales; 32/64-bit size variants; out-of-range dir index; every digest algorithm; upper-case hex digests; optional arrays; index entries reversed / rotated); accessors {:?} compared with an independent decoding; non-trivial = accepted and well-formed, hence judged",
+            "complete well-formed base header with pairwise distinct byte-asymmetric values; all 0-, 1-{} deviation variants over the {} tags of group '{}' from a menu of {} deviations (drop tag; retype to each other type; count 0 / n−1 / n+1; empty, short, multi-byte, invalid-UTF-8 values; 1–3 locales; 32/64-bit size variants; out-of-range dir index; every digest algorithm; upper-case hex digests; optional arrays; index entries reversed / rotated; entries behind the immutable region); accessors {:?} compared with an independent decoding; non-trivial = accepted and well-formed, hence judged",
             if k >= 2 { " and 2-" } else { "" }, g.tags.len(), g.name, nm, accessors
         );
         let nm2 = name.clone();
